@@ -661,7 +661,9 @@ def p_sort(ex, path, x, **kw):
             nm = "sorted(" + ",".join(str(p.sym[0]) for p in ([x] if x.sym is not None else x.parts)) + ")"
         new = mk_array(ex, path, "sorted", n, ascending=True, floats=True, exact_name=nm)
         A, N = new.sym
-        if "cnt" not in x.facts and x.ndim == 1 and x.mask is None:
+        from z3 import is_const, is_app
+        simple_len = pyint(N) or (is_app(N) and N.num_args() == 0)      # a pattern may not contain arithmetic / ite in the length
+        if "cnt" not in x.facts and x.ndim == 1 and x.mask is None and simple_len:
             # an unnamed derived array (e.g. a mask selection): name it so that "sorting preserves the counts" can be stated
             xn = name_tensor(ex, path, x)
             Ax, Nx = xn.sym
